@@ -1634,7 +1634,7 @@ func runC19Lives(res *hx.Result, rng *hx.Rng, tier string, outdir string, defect
 		lives[i].Multi = i % 3
 	}
 	// the session's view of the directory over time (bursts of registrations during refreshes)
-	nv, trials := 4, 10
+	nv, trials := 6, 12
 	if tier == "thorough" {
 		nv, trials = 60, 16
 	}
